@@ -176,7 +176,7 @@ def build_harness(flavour="release"):
 
 # ----------------------------------------------------------------------------- running
 
-ZONE_DEPENDENT = (b"lookup ", b"dtfrom ", b"dtfromtn ", b"find ", b"findn ")
+ZONE_DEPENDENT = (b"lookup ", b"dtfrom ", b"dtfromtn ", b"find ", b"findn ", b"project ", b"utcproject ")
 SHARD_MIN_BYTES = 24 << 20
 
 
